@@ -486,6 +486,41 @@ func (r *vsRun) step(st vsStep) {
 		if st.N < len(trs) {
 			_ = trs[st.N].Stop()
 		}
+	case "setPrefs": // codec preferences in the local numbering on the n-th transceiver
+		trs := p.pc.GetTransceivers()
+		if st.N < len(trs) {
+			prefs := []RTPCodecParameters{}
+			for _, name := range st.Prefs {
+				if c, ok := vsPrefTable[name]; ok {
+					prefs = append(prefs, c)
+				}
+			}
+			_ = trs[st.N].SetCodecPreferences(prefs)
+		}
+		desc = "setPrefs:" + strings.Join(st.Prefs, ",")
+	case "presetMid": // the application numbers a fresh transceiver itself, with a mid nothing carries yet
+		trs := p.pc.GetTransceivers()
+		if st.N < len(trs) && trs[st.N].Mid() == "" {
+			top := -1
+			note := func(m string) {
+				if v, err := strconv.Atoi(m); err == nil && v > top {
+					top = v
+				}
+			}
+			for _, q := range []*vsPeer{p, other} {
+				for _, tr := range q.pc.GetTransceivers() {
+					note(tr.Mid())
+				}
+				for _, d := range []*SessionDescription{q.pc.LocalDescription(), q.pc.RemoteDescription()} {
+					if d != nil {
+						for _, m := range vsMids(d.SDP) {
+							note(m)
+						}
+					}
+				}
+			}
+			_ = trs[st.N].SetMid(strconv.Itoa(top + 1))
+		}
 	case "setMid":
 		trs := p.pc.GetTransceivers()
 		if st.N < len(trs) {
@@ -541,9 +576,28 @@ var vsCodecTable = map[string][]string{ //nolint:gochecknoglobals
 	"h264/125":   {"125 H264/90000", "125 level-asymmetry-allowed=1;packetization-mode=1;profile-level-id=42e01f"},
 	"rtx96/97":   {"97 rtx/90000", "97 apt=96"},
 	"rtx102/103": {"103 rtx/90000", "103 apt=102"},
-	"foo/120":    {"120 FOO/90000", ""},
-	"bar/121":    {"121 BAR/48000/2", ""},
-	"t140/98":    {"98 t140/1000", ""},
+	// a peer with its own numbering: payload types that mean something else in pion's defaults
+	"vp8/98":    {"98 VP8/90000", ""},
+	"rtx98/99":  {"99 rtx/90000", "99 apt=98"},
+	"h264/96":   {"96 H264/90000", "96 level-asymmetry-allowed=1;packetization-mode=1;profile-level-id=42001f"},
+	"rtx96b/97": {"97 rtx/90000", "97 apt=96"},
+	"opus/0":    {"0 opus/48000/2", "0 minptime=10;useinbandfec=1"},
+	"foo/120":   {"120 FOO/90000", ""},
+	"bar/121":   {"121 BAR/48000/2", ""},
+	"t140/98":   {"98 t140/1000", ""},
+}
+
+// codec preferences as an application writes them, in pion's default numbering
+var vsPrefTable = map[string]RTPCodecParameters{ //nolint:gochecknoglobals
+	"vp8":     {RTPCodecCapability: RTPCodecCapability{MimeType: MimeTypeVP8, ClockRate: 90000}, PayloadType: 96},
+	"rtx-vp8": {RTPCodecCapability: RTPCodecCapability{MimeType: MimeTypeRTX, ClockRate: 90000, SDPFmtpLine: "apt=96"}, PayloadType: 97},
+	"vp9":     {RTPCodecCapability: RTPCodecCapability{MimeType: MimeTypeVP9, ClockRate: 90000, SDPFmtpLine: "profile-id=0"}, PayloadType: 98},
+	"rtx-vp9": {RTPCodecCapability: RTPCodecCapability{MimeType: MimeTypeRTX, ClockRate: 90000, SDPFmtpLine: "apt=98"}, PayloadType: 99},
+	"h264": {RTPCodecCapability: RTPCodecCapability{MimeType: MimeTypeH264, ClockRate: 90000,
+		SDPFmtpLine: "level-asymmetry-allowed=1;packetization-mode=1;profile-level-id=42001f"}, PayloadType: 102},
+	"rtx-h264": {RTPCodecCapability: RTPCodecCapability{MimeType: MimeTypeRTX, ClockRate: 90000, SDPFmtpLine: "apt=102"}, PayloadType: 103},
+	"opus":     {RTPCodecCapability: RTPCodecCapability{MimeType: MimeTypeOpus, ClockRate: 48000, Channels: 2, SDPFmtpLine: "minptime=10;useinbandfec=1"}, PayloadType: 111},
+	"pcmu":     {RTPCodecCapability: RTPCodecCapability{MimeType: MimeTypePCMU, ClockRate: 8000}, PayloadType: 0},
 }
 
 const vsFp = "sha-256 0F:74:31:25:CB:A2:13:EC:28:6F:6D:2C:61:FF:5D:C2:BC:B9:DB:3D:98:14:8D:1A:BB:EA:33:0C:A4:60:A8:8E"
@@ -623,6 +677,31 @@ func vsNewPC(t *testing.T, cfg string) *PeerConnection {
 			{RTPCodecCapability: RTPCodecCapability{MimeType: MimeTypeRTX, ClockRate: 90000, SDPFmtpLine: "apt=99"}, PayloadType: 97},
 			{RTPCodecCapability: RTPCodecCapability{MimeType: MimeTypeVP9, ClockRate: 90000, SDPFmtpLine: "profile-id=0"}, PayloadType: 98},
 		} {
+			if err := me.RegisterCodec(c, RTPCodecTypeVideo); err != nil {
+				t.Fatal(err)
+			}
+		}
+		if err := me.RegisterCodec(RTPCodecParameters{
+			RTPCodecCapability: RTPCodecCapability{MimeType: MimeTypeOpus, ClockRate: 48000, Channels: 2}, PayloadType: 111,
+		}, RTPCodecTypeAudio); err != nil {
+			t.Fatal(err)
+		}
+	case "rtxfec", "feconly", "nortx": // repair streams: RTX and FlexFEC both, FlexFEC alone, neither (C12)
+		video := []RTPCodecParameters{
+			{RTPCodecCapability: RTPCodecCapability{MimeType: MimeTypeVP8, ClockRate: 90000}, PayloadType: 96},
+		}
+		if cfg == "rtxfec" {
+			video = append(video, RTPCodecParameters{
+				RTPCodecCapability: RTPCodecCapability{MimeType: MimeTypeRTX, ClockRate: 90000, SDPFmtpLine: "apt=96"}, PayloadType: 97,
+			})
+		}
+		if cfg != "nortx" {
+			video = append(video, RTPCodecParameters{
+				RTPCodecCapability: RTPCodecCapability{MimeType: MimeTypeFlexFEC03, ClockRate: 90000, SDPFmtpLine: "repair-window=10000000"},
+				PayloadType:        118,
+			})
+		}
+		for _, c := range video {
 			if err := me.RegisterCodec(c, RTPCodecTypeVideo); err != nil {
 				t.Fatal(err)
 			}
